@@ -234,6 +234,34 @@ func sweepTypes(c *Ctx, fn func(in *decodeInput, seq int64)) {
 	}
 }
 
+// sweepShort runs fn on every input shorter than a header (0..19 bytes: a prefix of a valid header, zeros, 0xFF) and
+// on bare 20..23-byte inputs. The empty input is what a packet connection delivers for a zero-length datagram.
+func sweepShort(c *Ctx, fn func(in *decodeInput, seq int64)) {
+	in := &decodeInput{Fam: "short"}
+	hdr := make([]byte, 24)
+	putHeader(hdr, 0x0001, 0, goodCookie, 0x42)
+	var seq int64
+	for n := 0; n <= 23; n++ {
+		for pat := 0; pat < 3; pat++ {
+			seq++
+			if !c.Mine(seq) {
+				continue
+			}
+			b := make([]byte, n)
+			switch pat {
+			case 0:
+				copy(b, hdr)
+			case 2:
+				for i := range b {
+					b[i] = 0xFF
+				}
+			}
+			in.Bytes = b
+			fn(in, seq)
+		}
+	}
+}
+
 var tinyAlphabet = []byte{0x00, 0x01, 0x03, 0x04, 0x05, 0x08, 0xFF}
 
 // sweepTinyBodies runs fn on every body of at most ba bytes over the tiny
